@@ -46,7 +46,7 @@ const VIEWS: [ViewDef; 10] = [
 
 fn strategy(mk: fn(usize) -> Spec) -> impl Fn(Tier) -> BoxedStrategy<Case> + Send + Sync {
     move |tier: Tier| {
-        (gen::window(tier, 1, 40, 300), gen::dyadic_scale())
+        (gen::window(tier, 1, 40, 300), gen::dyadic_scale_wide())
             .prop_flat_map(move |(n, sc)| gen::stream(StreamCfg::new(n).scale(sc).len(0, 5 * n + 8)).prop_map(move |xs| Case::of(mk(n), xs)))
             .boxed()
     }
@@ -55,7 +55,7 @@ fn strategy(mk: fn(usize) -> Spec) -> impl Fn(Tier) -> BoxedStrategy<Case> + Sen
 /// long histories with small windows (300..1200 values, N <= 8): out of reach of the 5N+8 streams above
 fn strategy_long(mk: fn(usize) -> Spec) -> impl Fn(Tier) -> BoxedStrategy<Case> + Send + Sync {
     move |tier: Tier| {
-        (1usize..=8, gen::dyadic_scale())
+        (1usize..=8, gen::dyadic_scale_wide())
             .prop_flat_map(move |(n, sc)| gen::long_stream(StreamCfg::new(n).scale(sc).kmax(512), 300, tier.pick(1200, 5000)).prop_map(move |xs| Case::of(mk(n), xs)))
             .boxed()
     }
